@@ -1,6 +1,9 @@
+CONSTANT Buggy = FALSE
 INIT Init
 NEXT Next
 INVARIANT RefOK
 INVARIANT DropNoticed
+INVARIANT GlyphFaultsNoticed
+INVARIANT NamesSane
 INVARIANT TextLaws
 CHECK_DEADLOCK FALSE
